@@ -39,8 +39,10 @@ func (s *MultipartRequest) MarshalBinary() (data []byte, err error) {
 	n += 4 // for padding
 	data = append(data, b...)
 
-	b, err = s.Body.MarshalBinary()
-	data = append(data, b...)
+	if s.Body != nil {
+		b, err = s.Body.MarshalBinary()
+		data = append(data, b...)
+	}
 
 	log.Debugf("Sending MultipartRequest (%d): %v", len(data), data)
 
